@@ -21,7 +21,7 @@ Definition matched (b : buffered) : Prop :=
   end.
 Definition keys {A} (t : trk A) : list (N * ent) := map fst (prepared t).
 
-Record TInv (all : list buffered) (w : world) : Prop := {
+Record TInv0 (all : list buffered) (w : world) : Prop := {
   ti_se : Permutation (keys (tr_se w)) (flat_map dem_se all);
   ti_er : Permutation (keys (tr_er w)) (flat_map dem_er all);
   ti_de : Permutation (keys (tr_de w)) (flat_map dem_de all);
@@ -53,7 +53,7 @@ Lemma kview_proj w w' : kview w' = kview w ->
   ticket_ctr w' = ticket_ctr w /\ tr_ev w' = tr_ev w /\ tr_se w' = tr_se w /\ tr_er w' = tr_er w /\ tr_de w' = tr_de w /\ buffer w' = buffer w.
 Proof. unfold kview. intros H. inversion H. auto 10. Qed.
 
-Lemma TInv_kview all w w' : kview w' = kview w -> TInv all w -> TInv all w'.
+Lemma TInv0_kview all w w' : kview w' = kview w -> TInv0 all w -> TInv0 all w'.
 Proof.
   intros HK [T1 T2 T3 T4 T5 T6 T7]. destruct (kview_proj _ _ HK) as (K1 & K2 & K3 & K4 & K5 & K6).
   constructor; rewrite ?K1, ?K2, ?K3, ?K4, ?K5; assumption.
@@ -63,7 +63,7 @@ Proof. intros HK. destruct (kview_proj _ _ HK) as (K1 & K2 & K3 & K4 & K5 & K6).
 Lemma flags_within_kview cl w w' : kview w' = kview w -> flags_within cl w -> flags_within cl w'.
 Proof. intros HK. destruct (kview_proj _ _ HK) as (K1 & K2 & K3 & K4 & K5 & K6). destruct cl; unfold flags_within, flags_off; now rewrite ?K2, ?K3, ?K4, ?K5. Qed.
 
-Lemma TInv_perm all all' w : Permutation all all' -> TInv all w -> TInv all' w.
+Lemma TInv0_perm all all' w : Permutation all all' -> TInv0 all w -> TInv0 all' w.
 Proof.
   intros HP [T1 T2 T3 T4 T5 T6 T7]. constructor.
   - eapply Permutation_trans; [exact T1|]. apply Permutation_flat_map. exact HP.
@@ -120,7 +120,7 @@ Lemma dem_ev_tk b x : In x (dem_ev b) -> In (fst x) (tk_of b).
 Proof. unfold dem_ev, tk_of. destruct (b_setup b); cbn; try tauto; intros [<-|[]]; left; reflexivity. Qed.
 
 (* ---------- setup consumes exactly the entries of its own command ---------- *)
-Lemma TInv_tail b rest w : TInv (b :: rest) w ->
+Lemma TInv0_tail b rest w : TInv0 (b :: rest) w ->
   NoDup (flat_map tk_of rest) /\ (forall k, In k (flat_map tk_of rest) -> k <= ticket_ctr w) /\ Forall matched rest /\ matched b.
 Proof.
   intros [T1 T2 T3 T4 T5 T6 T7]. cbn [flat_map] in T5, T6. split; [|split; [|split]].
@@ -130,16 +130,16 @@ Proof.
   - inversion T7; assumption.
 Qed.
 
-Lemma setup_ok b rest w : TInv (b :: rest) w -> flags_off w ->
-  exists w0, run_setup (b_setup b) (b_sys b) w = Some w0 /\ TInv rest w0 /\ flags_within (b_cleanup b) w0
+Lemma setup_ok0 b rest w : TInv0 (b :: rest) w -> flags_off w ->
+  exists w0, run_setup (b_setup b) (b_sys b) w = Some w0 /\ TInv0 rest w0 /\ flags_within (b_cleanup b) w0
              /\ buffer w0 = buffer w /\ oview w0 = oview w /\ rview w0 = rview w.
 Proof.
-  intros HT (F1 & F2 & F3 & F4 & F5). destruct (TInv_tail b rest w HT) as (Hnd & Hbd & Hm & Hmb).
+  intros HT (F1 & F2 & F3 & F4 & F5). destruct (TInv0_tail b rest w HT) as (Hnd & Hbd & Hm & Hmb).
   destruct HT as [T1 T2 T3 T4 T5 T6 T7]. cbn [flat_map] in T1, T2, T3, T4.
   unfold matched in Hmb. destruct b as [t su cl]. cbn [b_setup b_sys b_cleanup] in *.
   destruct su; destruct cl; try contradiction; cbn [run_setup]; unfold dem_se, dem_er, dem_de, dem_ev in T1, T2, T3, T4; cbn [b_setup b_sys app] in T1, T2, T3, T4.
   - (* default *)
-    exists w. split; [reflexivity|]. split; [constructor; assumption|]. split; [repeat split; assumption|]. auto.
+    exists (note_claim 0 t [] w). split; [reflexivity|]. split; [constructor; assumption|]. split; [repeat split; assumption|]. auto.
   - (* system event *)
     destruct (trk_start_ok true k t (tr_se w)) as (t' & Hs & Hp & Hr); [eapply Permutation_in; [apply Permutation_sym; exact T1|left; reflexivity]|exact F1|].
     rewrite Hs. eexists. split; [reflexivity|]. split; [|split; [|auto]].
@@ -176,37 +176,37 @@ Qed.
 Lemma trackers_try_cleanup d w : kview (try_cleanup_data_entity d w) = kview w.
 Proof. apply kview_try_cleanup. Qed.
 
-Lemma cleanup_ok cl all w : TInv all w -> flags_within cl w -> TInv all (run_cleanup cl w) /\ flags_off (run_cleanup cl w) /\ buffer (run_cleanup cl w) = buffer w.
+Lemma cleanup_ok0 cl all w : TInv0 all w -> flags_within cl w -> TInv0 all (run_cleanup cl w) /\ flags_off (run_cleanup cl w) /\ buffer (run_cleanup cl w) = buffer w.
 Proof.
   intros HT HF. destruct cl; cbn [run_cleanup flags_within] in *.
   - auto.
   - set (w1 := w <| tr_se ::= trk_end |>).
-    assert (HT1 : TInv all w1) by (destruct HT; constructor; assumption).
+    assert (HT1 : TInv0 all w1) by (destruct HT; constructor; assumption).
     assert (HF1 : flags_off w1) by (destruct HF as (H1 & H2 & H3 & H4); repeat split; assumption).
     pose proof (kview_despawn (cur (tr_se w)) w1) as HK.
-    split; [eapply TInv_kview; eauto|]. split; [eapply flags_off_kview; eauto|]. destruct (kview_proj _ _ HK) as (_ & _ & _ & _ & _ & HB). exact HB.
+    split; [eapply TInv0_kview; eauto|]. split; [eapply flags_off_kview; eauto|]. destruct (kview_proj _ _ HK) as (_ & _ & _ & _ & _ & HB). exact HB.
   - split; [destruct HT; constructor; assumption|]. split; [destruct HF as (H1 & H2 & H3 & H4); repeat split; assumption|reflexivity].
   - set (w1 := w <| tr_de := mkTrk false (fst (cur (tr_de w)), None) (prepared (tr_de w)) |>).
-    assert (HT1 : TInv all w1) by (destruct HT; constructor; assumption).
+    assert (HT1 : TInv0 all w1) by (destruct HT; constructor; assumption).
     assert (HF1 : flags_off w1) by (destruct HF as (H1 & H2 & H3); repeat split; assumption).
     destruct (snd (cur (tr_de w))) as [h|]; [|auto].
     pose proof (kview_handle_drop h w1) as HK.
-    split; [eapply TInv_kview; eauto|]. split; [eapply flags_off_kview; eauto|]. destruct (kview_proj _ _ HK) as (_ & _ & _ & _ & _ & HB). exact HB.
+    split; [eapply TInv0_kview; eauto|]. split; [eapply flags_off_kview; eauto|]. destruct (kview_proj _ _ HK) as (_ & _ & _ & _ & _ & HB). exact HB.
   - set (w1 := (w <| tr_er ::= trk_end |>) <| tr_ev ::= trk_end |>).
-    assert (HT1 : TInv all w1) by (destruct HT; constructor; assumption).
+    assert (HT1 : TInv0 all w1) by (destruct HT; constructor; assumption).
     assert (HF1 : flags_off w1) by (destruct HF as (H1 & H2 & H3); repeat split; assumption).
     pose proof (kview_try_cleanup (cur (tr_ev (w <| tr_er ::= trk_end |>))) w1) as HK.
-    split; [eapply TInv_kview; eauto|]. split; [eapply flags_off_kview; eauto|]. destruct (kview_proj _ _ HK) as (_ & _ & _ & _ & _ & HB). exact HB.
+    split; [eapply TInv0_kview; eauto|]. split; [eapply flags_off_kview; eauto|]. destruct (kview_proj _ _ HK) as (_ & _ & _ & _ & _ & HB). exact HB.
   - set (w1 := w <| tr_ev ::= trk_end |>).
-    assert (HT1 : TInv all w1) by (destruct HT; constructor; assumption).
+    assert (HT1 : TInv0 all w1) by (destruct HT; constructor; assumption).
     assert (HF1 : flags_off w1) by (destruct HF as (H1 & H2 & H3 & H4); repeat split; assumption).
     pose proof (kview_try_cleanup (cur (tr_ev w)) w1) as HK.
-    split; [eapply TInv_kview; eauto|]. split; [eapply flags_off_kview; eauto|]. destruct (kview_proj _ _ HK) as (_ & _ & _ & _ & _ & HB). exact HB.
+    split; [eapply TInv0_kview; eauto|]. split; [eapply flags_off_kview; eauto|]. destruct (kview_proj _ _ HK) as (_ & _ & _ & _ & _ & HB). exact HB.
 Qed.
 
 (* ---------- a new command draws a fresh ticket and parks its metadata ---------- *)
 (* adding a pending command that demands nothing *)
-Lemma TInv_add_default t all w : TInv all w -> TInv (mkBuf t SuDefault ClDefault :: all) w.
+Lemma TInv0_add_default t all w : TInv0 all w -> TInv0 (mkBuf t SuDefault ClDefault :: all) w.
 Proof. intros [T1 T2 T3 T4 T5 T6 T7]. constructor; cbn [flat_map dem_se dem_er dem_de dem_ev tk_of b_setup app]; try assumption. constructor; [exact I|exact T7]. Qed.
 
 Lemma keys_prepare {A} k t (a : A) (tr : trk A) : keys (trk_prepare k t a tr) = keys tr ++ [(k, t)].
@@ -214,8 +214,8 @@ Proof. unfold keys, trk_prepare. cbn. rewrite map_app. reflexivity. Qed.
 Lemma perm_snoc_cons {A} (x : A) l l' : Permutation l l' -> Permutation (l ++ [x]) (x :: l').
 Proof. intros H. eapply Permutation_trans; [apply Permutation_sym, Permutation_cons_append|]. constructor. exact H. Qed.
 
-Lemma prepare_ok c all w t su cl w1 : prepare_cmd c w = Some (t, su, cl, w1) -> TInv all w -> flags_off w ->
-  TInv (mkBuf t su cl :: all) w1 /\ flags_off w1 /\ buffer w1 = buffer w /\ oview w1 = oview w /\ rview w1 = rview w.
+Lemma prepare_ok0 c all w t su cl w1 : prepare_cmd c w = Some (t, su, cl, w1) -> TInv0 all w -> flags_off w ->
+  TInv0 (mkBuf t su cl :: all) w1 /\ flags_off w1 /\ buffer w1 = buffer w /\ oview w1 = oview w /\ rview w1 = rview w.
 Proof.
   intros E HT HF. pose proof HT as [T1 T2 T3 T4 T5 T6 T7].
   set (k := ticket_ctr w + 1).
@@ -224,21 +224,309 @@ Proof.
   assert (Hnd : NoDup (k :: flat_map tk_of all)) by (constructor; assumption).
   assert (Hm : forall b, matched b -> Forall matched (b :: all)) by (intros b Hb; constructor; assumption).
   destruct c; try discriminate E; cbn [prepare_cmd] in E.
-  - inversion E; subst. split; [apply TInv_add_default; exact HT|]. auto.
+  - inversion E; subst. split; [apply TInv0_add_default; exact HT|]. auto.
   - unfold fresh_ticket in E. inversion E; subst. clear E. split; [|split; [exact HF|auto]].
     constructor; [|exact T2|exact T3|exact T4|exact Hnd|exact Hbd|apply Hm; exact I].
-    cbn [tr_se set]. rewrite keys_prepare. apply perm_snoc_cons. exact T1.
+    unfold note_prep; cbn [tr_se set]. rewrite keys_prepare. apply perm_snoc_cons. exact T1.
   - destruct r; unfold fresh_ticket in E; inversion E; subst; clear E.
-    + split; [apply TInv_add_default; exact HT|]. auto.
+    + split; [apply TInv0_add_default; exact HT|]. auto.
     + split; [|split; [exact HF|auto]]. constructor; [exact T1| |exact T3|exact T4|exact Hnd|exact Hbd|apply Hm; exact I].
-      cbn [tr_er set]. rewrite keys_prepare. apply perm_snoc_cons. exact T2.
+      unfold note_prep; cbn [tr_er set]. rewrite keys_prepare. apply perm_snoc_cons. exact T2.
     + split; [|split; [exact HF|auto]]. constructor; [exact T1|exact T2| |exact T4|exact Hnd|exact Hbd|apply Hm; exact I].
-      cbn [tr_de set]. rewrite keys_prepare. apply perm_snoc_cons. exact T3.
+      unfold note_prep; cbn [tr_de set]. rewrite keys_prepare. apply perm_snoc_cons. exact T3.
     + split; [|split; [exact HF|auto]]. constructor; [exact T1| |exact T3| |exact Hnd|exact Hbd|apply Hm; exact I].
-      * cbn [tr_er set]. rewrite keys_prepare. apply perm_snoc_cons. exact T2.
-      * cbn [tr_ev set]. rewrite keys_prepare. apply perm_snoc_cons. exact T4.
+      * unfold note_prep; cbn [tr_er set]. rewrite keys_prepare. apply perm_snoc_cons. exact T2.
+      * unfold note_prep; cbn [tr_ev set]. rewrite keys_prepare. apply perm_snoc_cons. exact T4.
     + split; [|split; [exact HF|auto]]. constructor; [exact T1|exact T2|exact T3| |exact Hnd|exact Hbd|apply Hm; exact I].
-      cbn [tr_ev set]. rewrite keys_prepare. apply perm_snoc_cons. exact T4.
+      unfold note_prep; cbn [tr_ev set]. rewrite keys_prepare. apply perm_snoc_cons. exact T4.
+Qed.
+
+(* ================================================================================================================ *)
+(* ghost bookkeeping (C03): each setup claims exactly the entries its own command parked                             *)
+Definition gentry := (N * ent * list pitem)%type.
+Definition parked (k : N) (s : ent) (it : pitem) (w : world) : Prop :=
+  exists items, In (k, s, items) (g_prep w) /\ In it items.
+(* the entries a pending command parked, by the kind of its setup *)
+Definition shape_ok (gp : list gentry) (b : buffered) : Prop :=
+  match b_setup b with
+  | SuDefault => True
+  | SuSysEvent k => exists d, In (k, b_sys b, [PiSe d]) gp
+  | SuEntity k => exists src rt, In (k, b_sys b, [PiEr src rt]) gp
+  | SuDespawn k => exists src, In (k, b_sys b, [PiDe src]) gp
+  | SuEntityEvent k => exists tgt d, In (k, b_sys b, [PiEr tgt (REvent UNIT_TY); PiEv d]) gp
+  | SuBroadcast k => exists d, In (k, b_sys b, [PiEv d]) gp
+  end.
+(* a claim is empty (manual run) or is literally one command's parked entry list, ticket and system included *)
+Definition claim_ok (gp : list gentry) (c : gentry) : Prop := snd c = [] \/ In c gp.
+Definition ptickets (gp : list gentry) : list N := map (fun x => fst (fst x)) gp.
+
+Record GInv (all : list buffered) (w : world) : Prop := {
+  g_se : forall k s d, In (k, s, d) (prepared (tr_se w)) -> parked k s (PiSe d) w;
+  g_er : forall k s x src rt, In (k, s, (x, src, rt)) (prepared (tr_er w)) -> parked k s (PiEr src rt) w;
+  g_de : forall k s src h, In (k, s, (src, h)) (prepared (tr_de w)) -> parked k s (PiDe src) w;
+  g_ev : forall k s d, In (k, s, d) (prepared (tr_ev w)) -> parked k s (PiEv d) w;
+  g_bound : forall k, In k (ptickets (g_prep w)) -> k <= ticket_ctr w;
+  g_uniq : NoDup (ptickets (g_prep w));
+  g_shape : Forall (shape_ok (g_prep w)) all;
+  g_exact : Forall (claim_ok (g_prep w)) (g_claim w);
+}.
+
+Definition gview (w : world) :=
+  (ticket_ctr w, prepared (tr_se w), prepared (tr_er w), prepared (tr_de w), prepared (tr_ev w), g_prep w, g_claim w).
+Lemma gview_kview w w' : kview w' = kview w -> gview w' = gview w.
+Proof. unfold kview, gview. intros H. inversion H. reflexivity. Qed.
+Lemma GInv_gview all w w' : gview w' = gview w -> GInv all w -> GInv all w'.
+Proof.
+  unfold gview. intros H [G1 G2 G3 G4 G5 G6 G7 G8]. inversion H as [[E1 E2 E3 E4 E5 E6 E7]].
+  constructor; unfold parked in *; rewrite ?E1, ?E2, ?E3, ?E4, ?E5, ?E6, ?E7; assumption.
+Qed.
+Lemma GInv_kview all w w' : kview w' = kview w -> GInv all w -> GInv all w'.
+Proof. intros H. apply GInv_gview. apply gview_kview. exact H. Qed.
+Lemma GInv_perm all all' w : Permutation all all' -> GInv all w -> GInv all' w.
+Proof. intros HP [G1 G2 G3 G4 G5 G6 G7 G8]. constructor; try assumption. eapply Permutation_Forall; eauto. Qed.
+Lemma GInv_tail b rest w : GInv (b :: rest) w -> GInv rest w.
+Proof. intros [G1 G2 G3 G4 G5 G6 G7 G8]. constructor; try assumption. inversion G7; assumption. Qed.
+Lemma GInv_add_default t all w : GInv all w -> GInv (mkBuf t SuDefault ClDefault :: all) w.
+Proof. intros [G1 G2 G3 G4 G5 G6 G7 G8]. constructor; try assumption. constructor; [exact I|exact G7]. Qed.
+
+Lemma shape_ok_mono gp x b : shape_ok gp b -> shape_ok (gp ++ [x]) b.
+Proof.
+  unfold shape_ok. destruct (b_setup b); auto.
+  - intros (d & H). exists d. apply in_or_app. left. exact H.
+  - intros (a & c & H). exists a, c. apply in_or_app. left. exact H.
+  - intros (d & H). exists d. apply in_or_app. left. exact H.
+  - intros (a & c & H). exists a, c. apply in_or_app. left. exact H.
+  - intros (d & H). exists d. apply in_or_app. left. exact H.
+Qed.
+Lemma claim_ok_mono gp x c : claim_ok gp c -> claim_ok (gp ++ [x]) c.
+Proof. intros [H|H]; [left; exact H|right; apply in_or_app; left; exact H]. Qed.
+
+Lemma NoDup_app_snoc {A} (l : list A) x : NoDup l -> ~ In x l -> NoDup (l ++ [x]).
+Proof.
+  intros H Hn. eapply Permutation_NoDup; [apply Permutation_cons_append|]. constructor; assumption.
+Qed.
+(* a command parks its entries under a fresh ticket *)
+Lemma GInv_park k t items su cl all w w1 :
+  k = ticket_ctr w + 1 -> ticket_ctr w1 = k -> g_prep w1 = g_prep w ++ [(k, t, items)] -> g_claim w1 = g_claim w ->
+  (forall k' s d, In (k', s, d) (prepared (tr_se w1)) -> In (k', s, d) (prepared (tr_se w)) \/ (k' = k /\ s = t /\ In (PiSe d) items)) ->
+  (forall k' s x src rt, In (k', s, (x, src, rt)) (prepared (tr_er w1)) -> In (k', s, (x, src, rt)) (prepared (tr_er w)) \/ (k' = k /\ s = t /\ In (PiEr src rt) items)) ->
+  (forall k' s src h, In (k', s, (src, h)) (prepared (tr_de w1)) -> In (k', s, (src, h)) (prepared (tr_de w)) \/ (k' = k /\ s = t /\ In (PiDe src) items)) ->
+  (forall k' s d, In (k', s, d) (prepared (tr_ev w1)) -> In (k', s, d) (prepared (tr_ev w)) \/ (k' = k /\ s = t /\ In (PiEv d) items)) ->
+  shape_ok (g_prep w1) (mkBuf t su cl) ->
+  GInv all w -> GInv (mkBuf t su cl :: all) w1.
+Proof.
+  intros Hk Hc Hp Hcl Hse Her Hde Hev Hsh [G1 G2 G3 G4 G5 G6 G7 G8].
+  assert (Hmono : forall k' s it, parked k' s it w -> parked k' s it w1).
+  { intros k' s it (items' & Hi & Hit). exists items'. split; [rewrite Hp; apply in_or_app; left; exact Hi|exact Hit]. }
+  assert (Hnew : forall it, In it items -> parked k t it w1).
+  { intros it Hit. exists items. split; [rewrite Hp; apply in_or_app; right; left; reflexivity|exact Hit]. }
+  constructor.
+  - intros k' s d Hin. destruct (Hse _ _ _ Hin) as [Ho|(-> & -> & Hi)]; [apply Hmono, G1; exact Ho|apply Hnew; exact Hi].
+  - intros k' s x src rt Hin. destruct (Her _ _ _ _ _ Hin) as [Ho|(-> & -> & Hi)]; [apply Hmono; eapply G2; exact Ho|apply Hnew; exact Hi].
+  - intros k' s src h Hin. destruct (Hde _ _ _ _ Hin) as [Ho|(-> & -> & Hi)]; [apply Hmono; eapply G3; exact Ho|apply Hnew; exact Hi].
+  - intros k' s d Hin. destruct (Hev _ _ _ Hin) as [Ho|(-> & -> & Hi)]; [apply Hmono, G4; exact Ho|apply Hnew; exact Hi].
+  - intros k' Hin. rewrite Hp in Hin. unfold ptickets in Hin. rewrite map_app in Hin. apply in_app_or in Hin. rewrite Hc.
+    destruct Hin as [Ho|[<-|[]]]; [apply G5 in Ho; lia|cbn; lia].
+  - rewrite Hp. unfold ptickets. rewrite map_app. cbn [map fst].
+    apply NoDup_app_snoc; [exact G6|]. intros Hin. apply G5 in Hin. lia.
+  - constructor; [exact Hsh|]. rewrite Hp. eapply Forall_impl; [|exact G7]. intros b. apply shape_ok_mono.
+  - rewrite Hcl, Hp. eapply Forall_impl; [|exact G8]. intros c. apply claim_ok_mono.
+Qed.
+
+(* a setup removes entries from the trackers and records one claim *)
+Lemma GInv_claimed c b rest w w0 :
+  ticket_ctr w0 = ticket_ctr w -> g_prep w0 = g_prep w -> g_claim w0 = g_claim w ++ [c] ->
+  incl (prepared (tr_se w0)) (prepared (tr_se w)) -> incl (prepared (tr_er w0)) (prepared (tr_er w)) ->
+  incl (prepared (tr_de w0)) (prepared (tr_de w)) -> incl (prepared (tr_ev w0)) (prepared (tr_ev w)) ->
+  claim_ok (g_prep w) c -> GInv (b :: rest) w -> GInv rest w0.
+Proof.
+  intros Hc Hp Hcl I1 I2 I3 I4 Hok [G1 G2 G3 G4 G5 G6 G7 G8].
+  constructor; unfold parked in *; rewrite ?Hc, ?Hp, ?Hcl.
+  - intros k s d Hin. apply G1, I1, Hin.
+  - intros k s x src rt Hin. eapply G2, I2, Hin.
+  - intros k s src h Hin. eapply G3, I3, Hin.
+  - intros k s d Hin. apply G4, I4, Hin.
+  - exact G5.
+  - exact G6.
+  - inversion G7; assumption.
+  - apply Forall_app. split; [exact G8|]. constructor; [exact Hok|constructor].
+Qed.
+
+Lemma nodup_ticket_inj (gp : list gentry) x y : NoDup (ptickets gp) -> In x gp -> In y gp -> fst (fst x) = fst (fst y) -> x = y.
+Proof.
+  induction gp as [|z gp IH]; cbn [ptickets map In]; [intros _ []|].
+  intros Hnd Hx Hy Hf. inversion Hnd as [|? ? Hni Hnd']; subst.
+  destruct Hx as [<-|Hx]; destruct Hy as [<-|Hy]; [reflexivity| | |apply IH; assumption].
+  - exfalso. apply Hni. rewrite Hf. apply (in_map (fun x => fst (fst x))). exact Hy.
+  - exfalso. apply Hni. rewrite <- Hf. apply (in_map (fun x => fst (fst x))). exact Hx.
+Qed.
+
+Lemma swap_remove_at_in {A} k s (l : list (N * ent * A)) a rest : swap_remove_at k s l = Some (a, rest) -> In (k, s, a) l /\ incl rest l.
+Proof.
+  revert a rest. induction l as [|[[k' s'] a'] l IH]; intros a rest; cbn [swap_remove_at]; [discriminate|].
+  destruct (N.eqb k k' && N.eqb s s') eqn:E.
+  - intros H. inversion H; subst. apply andb_true_iff in E. destruct E as [E1 E2]. apply N.eqb_eq in E1, E2. subst.
+    split; [left; reflexivity|]. intros x Hx. right. eapply Permutation_in; [apply swap_last_perm|exact Hx].
+  - destruct (swap_remove_at k s l) as [[a0 r0]|]; [|discriminate]. intros H. inversion H; subst.
+    destruct (IH _ _ eq_refl) as [Hin Hincl]. split; [right; exact Hin|]. intros x [<-|Hx]; [left; reflexivity|right; apply Hincl; exact Hx].
+Qed.
+Lemma trk_start_in {A} strict k s (t t' : trk A) : trk_start strict k s t = Some t' ->
+  In (k, s, cur t') (prepared t) /\ incl (prepared t') (prepared t) /\ reacting t' = true.
+Proof.
+  unfold trk_start. destruct (swap_remove_at k s (prepared t)) as [[a rest]|] eqn:E; [|discriminate].
+  destruct (strict && reacting t); [discriminate|]. intros H. inversion H; subst. cbn.
+  destruct (swap_remove_at_in _ _ _ _ _ E) as [H1 H2]. auto.
+Qed.
+
+Lemma parked_exact k t it items w : NoDup (ptickets (g_prep w)) -> parked k t it w -> In (k, t, items) (g_prep w) -> In it items.
+Proof.
+  intros Hnd (items' & Hi & Hit) Hin. pose proof (nodup_ticket_inj _ _ _ Hnd Hi Hin eq_refl) as E. inversion E; subst. exact Hit.
+Qed.
+
+Lemma G_setup b rest w w0 : run_setup (b_setup b) (b_sys b) w = Some w0 -> GInv (b :: rest) w -> GInv rest w0.
+Proof.
+  intros E HG. pose proof HG as [G1 G2 G3 G4 G5 G6 G7 G8]. inversion G7 as [|? ? Hsh _]; subst. clear G7.
+  destruct b as [t su cl]. unfold shape_ok in Hsh. cbn [b_setup b_sys] in *.
+  destruct su; cbn [run_setup] in E.
+  - inversion E; subst. eapply (GInv_claimed (0, t, []) _ rest w); try reflexivity; try apply incl_refl; [left; reflexivity|exact HG].
+  - destruct (trk_start true k t (tr_se w)) as [t'|] eqn:ES; inversion E; subst. clear E. destruct (trk_start_in _ _ _ _ _ ES) as (Hin & Hincl & _).
+    destruct Hsh as (d & Hd). pose proof (parked_exact _ _ _ _ _ G6 (G1 _ _ _ Hin) Hd) as Hit. destruct Hit as [Hit|[]]. inversion Hit; subst.
+    eapply (GInv_claimed (k, t, [PiSe (cur t')]) _ rest w); try reflexivity; try apply incl_refl; [exact Hincl|right; exact Hd|exact HG].
+  - destruct (trk_start true k t (tr_er w)) as [t'|] eqn:ES; inversion E; subst. clear E. destruct (trk_start_in _ _ _ _ _ ES) as (Hin & Hincl & _).
+    destruct Hsh as (src & rt & Hd). destruct (cur t') as [[x src'] rt'] eqn:EC.
+    pose proof (parked_exact _ _ _ _ _ G6 (G2 _ _ _ _ _ Hin) Hd) as Hit. destruct Hit as [Hit|[]]. inversion Hit; subst. cbn [fst snd].
+    eapply (GInv_claimed (k, t, [PiEr src' rt']) _ rest w); try reflexivity; try apply incl_refl; [exact Hincl|right; exact Hd|exact HG].
+  - destruct (trk_start false k t (tr_de w)) as [t'|] eqn:ES; inversion E; subst. clear E. destruct (trk_start_in _ _ _ _ _ ES) as (Hin & Hincl & _).
+    destruct Hsh as (src & Hd). destruct (cur t') as [src' h] eqn:EC.
+    pose proof (parked_exact _ _ _ _ _ G6 (G3 _ _ _ _ Hin) Hd) as Hit. destruct Hit as [Hit|[]]. inversion Hit; subst. cbn [fst snd].
+    eapply (GInv_claimed (k, t, [PiDe src']) _ rest w); try reflexivity; try apply incl_refl; [exact Hincl|right; exact Hd|exact HG].
+  - destruct (trk_start true k t (tr_er w)) as [t'|] eqn:ES; [|discriminate E].
+    change (tr_ev (w <| tr_er := t' |>)) with (tr_ev w) in E.
+    destruct (trk_start true k t (tr_ev w)) as [t''|] eqn:ES'; inversion E; subst. clear E.
+    destruct (trk_start_in _ _ _ _ _ ES) as (Hin & Hincl & _). destruct (trk_start_in _ _ _ _ _ ES') as (Hin' & Hincl' & _).
+    destruct Hsh as (tgt & d & Hd). destruct (cur t') as [[x src'] rt'] eqn:EC.
+    pose proof (parked_exact _ _ _ _ _ G6 (G2 _ _ _ _ _ Hin) Hd) as Hit. destruct Hit as [Hit|[Hit|[]]]; [|discriminate Hit]. inversion Hit; subst.
+    pose proof (parked_exact _ _ _ _ _ G6 (G4 _ _ _ Hin') Hd) as Hit'. destruct Hit' as [Hit'|[Hit'|[]]]; [discriminate Hit'|]. inversion Hit'; subst. cbn [fst snd].
+    eapply (GInv_claimed (k, t, [PiEr src' (REvent UNIT_TY); PiEv (cur t'')]) _ rest w); try reflexivity; try apply incl_refl; [exact Hincl|exact Hincl'|right; exact Hd|exact HG].
+  - destruct (trk_start true k t (tr_ev w)) as [t'|] eqn:ES; inversion E; subst. clear E. destruct (trk_start_in _ _ _ _ _ ES) as (Hin & Hincl & _).
+    destruct Hsh as (d & Hd). pose proof (parked_exact _ _ _ _ _ G6 (G4 _ _ _ Hin) Hd) as Hit. destruct Hit as [Hit|[]]. inversion Hit; subst.
+    eapply (GInv_claimed (k, t, [PiEv (cur t')]) _ rest w); try reflexivity; try apply incl_refl; [exact Hincl|right; exact Hd|exact HG].
+Qed.
+
+Lemma gview_run_cleanup cl w : gview (run_cleanup cl w) = gview w.
+Proof.
+  destruct cl; cbn [run_cleanup].
+  - reflexivity.
+  - rewrite (gview_kview _ _ (kview_despawn _ _)). reflexivity.
+  - reflexivity.
+  - destruct (snd (cur (tr_de w))) as [h|]; [rewrite (gview_kview _ _ (kview_handle_drop _ _))|]; reflexivity.
+  - rewrite (gview_kview _ _ (kview_try_cleanup _ _)). reflexivity.
+  - rewrite (gview_kview _ _ (kview_try_cleanup _ _)). reflexivity.
+Qed.
+
+Lemma pitem_eqb_refl a : pitem_eqb a a = true.
+Proof. destruct a; cbn; rewrite ?N.eqb_refl; try reflexivity. destruct rt; cbn; apply N.eqb_refl. Qed.
+Lemma pitems_eqb_refl l : pitems_eqb l l = true.
+Proof. induction l as [|a l IH]; cbn; [reflexivity|]. rewrite pitem_eqb_refl, IH. reflexivity. Qed.
+Lemma pitem_eqb_eq a b : pitem_eqb a b = true -> a = b.
+Proof.
+  destruct a, b; cbn; try discriminate; intros H; try (apply N.eqb_eq in H; subst; reflexivity).
+  apply andb_true_iff in H. destruct H as [H1 H2]. apply N.eqb_eq in H1. subst. destruct rt, rt0; cbn in H2; try discriminate; apply N.eqb_eq in H2; subst; reflexivity.
+Qed.
+Lemma pitems_eqb_eq a : forall b, pitems_eqb a b = true -> a = b.
+Proof.
+  induction a as [|x a IH]; intros [|y b]; cbn; try discriminate; [reflexivity|].
+  intros H. apply andb_true_iff in H. destruct H as [H1 H2]. apply pitem_eqb_eq in H1. apply IH in H2. subst. reflexivity.
+Qed.
+
+(* right after a successful setup the readers expose exactly the entries that setup claimed *)
+Definition fresh_claim (t : ent) (w : world) : Prop := fresh_claim_b t w = true.
+Lemma fresh_claim_kview t w w' : kview w' = kview w -> fresh_claim t w -> fresh_claim t w'.
+Proof.
+  unfold fresh_claim, fresh_claim_b, last_claim, visible, kview. intros H. inversion H as [[E1 E2 E3 E4 E5 E6 E7 E8]]. rewrite E2, E3, E4, E5, E8. auto.
+Qed.
+Lemma last_snoc {A} (l : list A) x d : last (l ++ [x]) d = x.
+Proof. apply last_last. Qed.
+Lemma setup_fresh su t w w0 : flags_off w -> run_setup su t w = Some w0 -> fresh_claim t w0.
+Proof.
+  intros (F1 & F2 & F3 & F4 & F5) E. unfold fresh_claim, fresh_claim_b, last_claim.
+  destruct su; cbn [run_setup] in E.
+  - inversion E; subst. unfold note_claim, visible. cbn [g_claim tr_se tr_er tr_de tr_ev set]. rewrite last_snoc, F1, F2, F3, F4. cbn. rewrite N.eqb_refl. reflexivity.
+  - destruct (trk_start true k t (tr_se w)) as [t'|] eqn:ES; inversion E; subst. destruct (trk_start_in _ _ _ _ _ ES) as (_ & _ & Hr).
+    unfold note_claim, emit, visible. cbn [g_claim tr_se tr_er tr_de tr_ev set]. rewrite last_snoc, Hr, F2, F3, F4. cbn [fst snd app]. rewrite N.eqb_refl, pitems_eqb_refl. reflexivity.
+  - destruct (trk_start true k t (tr_er w)) as [t'|] eqn:ES; inversion E; subst. destruct (trk_start_in _ _ _ _ _ ES) as (_ & _ & Hr).
+    unfold note_claim, emit, visible. cbn [g_claim tr_se tr_er tr_de tr_ev set]. rewrite last_snoc, Hr, F1, F3, F4. cbn [fst snd app]. rewrite N.eqb_refl, pitems_eqb_refl. reflexivity.
+  - destruct (trk_start false k t (tr_de w)) as [t'|] eqn:ES; inversion E; subst. destruct (trk_start_in _ _ _ _ _ ES) as (_ & _ & Hr).
+    unfold note_claim, emit, visible. cbn [g_claim tr_se tr_er tr_de tr_ev set]. rewrite last_snoc, Hr, F1, F2, F4. cbn [fst snd app]. rewrite N.eqb_refl, pitems_eqb_refl. reflexivity.
+  - destruct (trk_start true k t (tr_er w)) as [t'|] eqn:ES; [|discriminate E].
+    change (tr_ev (w <| tr_er := t' |>)) with (tr_ev w) in E.
+    destruct (trk_start true k t (tr_ev w)) as [t''|] eqn:ES'; inversion E; subst.
+    destruct (trk_start_in _ _ _ _ _ ES) as (_ & _ & Hr). destruct (trk_start_in _ _ _ _ _ ES') as (_ & _ & Hr').
+    unfold note_claim, emit, visible. cbn [g_claim tr_se tr_er tr_de tr_ev set]. rewrite last_snoc, Hr, Hr', F1, F3. cbn [fst snd app]. rewrite N.eqb_refl, pitems_eqb_refl. reflexivity.
+  - destruct (trk_start true k t (tr_ev w)) as [t'|] eqn:ES; inversion E; subst. destruct (trk_start_in _ _ _ _ _ ES) as (_ & _ & Hr).
+    unfold note_claim, emit, visible. cbn [g_claim tr_se tr_er tr_de tr_ev set]. rewrite last_snoc, Hr, F1, F2, F3. cbn [fst snd app]. rewrite N.eqb_refl, pitems_eqb_refl. reflexivity.
+Qed.
+
+(* a new command: ghost side of prepare_ok0 *)
+Lemma in_snoc_inv {A} (x y : A) l : In x (l ++ [y]) -> In x l \/ x = y.
+Proof. intros H. apply in_app_or in H. destruct H as [H|[H|[]]]; auto. Qed.
+Lemma G_prepare c all w t su cl w1 : prepare_cmd c w = Some (t, su, cl, w1) -> GInv all w -> GInv (mkBuf t su cl :: all) w1.
+Proof.
+  intros E HG. destruct c; try discriminate E; cbn [prepare_cmd] in E.
+  - inversion E; subst. apply GInv_add_default. exact HG.
+  - unfold fresh_ticket in E. inversion E; subst. clear E.
+    eapply (GInv_park (ticket_ctr w + 1) t [PiSe d] _ _ all w); try reflexivity; try (intros; left; assumption); [| |exact HG].
+    + intros k' s d0 Hin. unfold note_prep, trk_prepare in Hin. cbn [tr_se set prepared] in Hin. apply in_snoc_inv in Hin. destruct Hin as [H|H]; [left; exact H|right]. inversion H; subst. auto using in_eq.
+    + unfold shape_ok. cbn [b_setup b_sys]. exists d. unfold note_prep. cbn [g_prep set]. apply in_or_app. right. left. reflexivity.
+  - destruct r; unfold fresh_ticket in E; inversion E; subst; clear E.
+    + apply GInv_add_default. exact HG.
+    + eapply (GInv_park (ticket_ctr w + 1) t [PiEr src rt] _ _ all w); try reflexivity; try (intros; left; assumption); [| |exact HG].
+      * intros k' s x src0 rt0 Hin. unfold note_prep, trk_prepare in Hin. cbn [tr_er set prepared] in Hin. apply in_snoc_inv in Hin. destruct Hin as [H|H]; [left; exact H|right]. inversion H; subst. auto using in_eq.
+      * unfold shape_ok. cbn [b_setup b_sys]. exists src, rt. unfold note_prep. cbn [g_prep set]. apply in_or_app. right. left. reflexivity.
+    + eapply (GInv_park (ticket_ctr w + 1) t [PiDe src] _ _ all w); try reflexivity; try (intros; left; assumption); [| |exact HG].
+      * intros k' s src0 h0 Hin. unfold note_prep, trk_prepare in Hin. cbn [tr_de set prepared] in Hin. apply in_snoc_inv in Hin. destruct Hin as [H|H]; [left; exact H|right]. inversion H; subst. auto using in_eq.
+      * unfold shape_ok. cbn [b_setup b_sys]. exists src. unfold note_prep. cbn [g_prep set]. apply in_or_app. right. left. reflexivity.
+    + eapply (GInv_park (ticket_ctr w + 1) t [PiEr target (REvent UNIT_TY); PiEv d]); try reflexivity; try (intros; left; assumption); [| | |exact HG].
+      * intros k' s x src0 rt0 Hin. unfold note_prep, trk_prepare in Hin. cbn [tr_er set prepared] in Hin. apply in_snoc_inv in Hin. destruct Hin as [H|H]; [left; exact H|right]. inversion H; subst. auto using in_eq.
+      * intros k' s d0 Hin. unfold note_prep, trk_prepare in Hin. cbn [tr_ev set prepared] in Hin. apply in_snoc_inv in Hin. destruct Hin as [H|H]; [left; exact H|right]. inversion H; subst. split; [reflexivity|]. split; [reflexivity|]. right. left. reflexivity.
+      * unfold shape_ok. cbn [b_setup b_sys]. exists target, d. unfold note_prep. cbn [g_prep set]. apply in_or_app. right. left. reflexivity.
+    + eapply (GInv_park (ticket_ctr w + 1) t [PiEv d] _ _ all w); try reflexivity; try (intros; left; assumption); [| |exact HG].
+      * intros k' s d0 Hin. unfold note_prep, trk_prepare in Hin. cbn [tr_ev set prepared] in Hin. apply in_snoc_inv in Hin. destruct Hin as [H|H]; [left; exact H|right]. inversion H; subst. auto using in_eq.
+      * unfold shape_ok. cbn [b_setup b_sys]. exists d. unfold note_prep. cbn [g_prep set]. apply in_or_app. right. left. reflexivity.
+Qed.
+
+(* ---------- the full ticket invariant ---------- *)
+Definition TInv (all : list buffered) (w : world) : Prop := TInv0 all w /\ GInv all w.
+Lemma TInv_kview all w w' : kview w' = kview w -> TInv all w -> TInv all w'.
+Proof. intros HK [A B]. split; [eapply TInv0_kview; eauto|eapply GInv_kview; eauto]. Qed.
+Lemma TInv_perm all all' w : Permutation all all' -> TInv all w -> TInv all' w.
+Proof. intros HP [A B]. split; [eapply TInv0_perm; eauto|eapply GInv_perm; eauto]. Qed.
+Lemma TInv_add_default t all w : TInv all w -> TInv (mkBuf t SuDefault ClDefault :: all) w.
+Proof. intros [A B]. split; [apply TInv0_add_default; exact A|apply GInv_add_default; exact B]. Qed.
+Lemma setup_ok b rest w : TInv (b :: rest) w -> flags_off w ->
+  exists w0, run_setup (b_setup b) (b_sys b) w = Some w0 /\ TInv rest w0 /\ flags_within (b_cleanup b) w0
+             /\ buffer w0 = buffer w /\ oview w0 = oview w /\ rview w0 = rview w.
+Proof.
+  intros [A B] HF. destruct (setup_ok0 b rest w A HF) as (w0 & ES & HT0 & R). exists w0. split; [exact ES|]. split; [|exact R].
+  split; [exact HT0|eapply G_setup; eauto].
+Qed.
+Lemma cleanup_ok cl all w : TInv all w -> flags_within cl w -> TInv all (run_cleanup cl w) /\ flags_off (run_cleanup cl w) /\ buffer (run_cleanup cl w) = buffer w.
+Proof.
+  intros [A B] HF. destruct (cleanup_ok0 cl all w A HF) as (HT0 & R). split; [|exact R]. split; [exact HT0|].
+  eapply GInv_gview; [apply gview_run_cleanup|exact B].
+Qed.
+Definition tkview (w : world) := (ticket_ctr w, tr_ev w, tr_se w, tr_er w, tr_de w, g_prep w, g_claim w).
+Lemma TInv_eq all all' w w' : all' = all -> tkview w' = tkview w -> TInv all w -> TInv all' w'.
+Proof.
+  unfold tkview. intros -> H [[T1 T2 T3 T4 T5 T6 T7] G]. inversion H as [[E1 E2 E3 E4 E5 E6 E7]]. split.
+  - constructor; rewrite ?E1, ?E2, ?E3, ?E4, ?E5; assumption.
+  - eapply GInv_gview; [|exact G]. unfold gview. rewrite E1, E2, E3, E4, E5, E6, E7. reflexivity.
+Qed.
+Ltac tsame T := first [exact T | refine (TInv_eq _ _ _ _ _ _ T); reflexivity].
+Lemma prepare_ok c all w t su cl w1 : prepare_cmd c w = Some (t, su, cl, w1) -> TInv all w -> flags_off w ->
+  TInv (mkBuf t su cl :: all) w1 /\ flags_off w1 /\ buffer w1 = buffer w /\ oview w1 = oview w /\ rview w1 = rview w.
+Proof.
+  intros E [A B] HF. destruct (prepare_ok0 c all w t su cl w1 E A HF) as (HT0 & R). split; [|exact R]. split; [exact HT0|eapply G_prepare; eauto].
 Qed.
 
 (* ================================================================================================================ *)
@@ -365,6 +653,11 @@ Notation TW cl := (TX (flags_within cl)).
 Definition fl_ok (fl : world -> Prop) : Prop := forall w w', kview w' = kview w -> fl w -> fl w'.
 Lemma fl_ok_off : fl_ok flags_off. Proof. intros w w'. apply flags_off_kview. Qed.
 Lemma fl_ok_within cl : fl_ok (flags_within cl). Proof. intros w w'. apply flags_within_kview. Qed.
+(* between a command's setup and the start of its body: what the readers expose is what that setup claimed *)
+Definition flags_fresh (t : ent) (cl : cleanup) (w : world) : Prop := flags_within cl w /\ fresh_claim t w.
+Lemma fl_ok_fresh t cl : fl_ok (flags_fresh t cl).
+Proof. intros w w' HK [A B]. split; [eapply flags_within_kview; eauto|eapply fresh_claim_kview; eauto]. Qed.
+Notation TF t cl := (TX (flags_fresh t cl)).
 
 (* steps that touch neither the trackers, nor the buffer, nor storage/cbs/spawned *)
 Lemma TX_inert fl all w w' : fl_ok fl -> kview w' = kview w -> oview w' = oview w -> Ubase w' -> TX fl all w -> TX fl all w'.
@@ -436,9 +729,9 @@ Definition TPre (i : instr) (H : list buffered) (w : world) : Prop :=
   | IApplyList cs => TI all w /\ nocl cs
   | IRunner t su cl => TI (mkBuf t su cl :: all) w
   | IRun t su cl idx => TI (mkBuf t su cl :: all) w /\ alookup t (storage w) = Some true
-  | ICallback t cl => TW cl all w /\ alookup t (storage w) = Some false
+  | ICallback t cl => TF t cl all w /\ alookup t (storage w) = Some false
                       /\ (forall cb, alookup t (cbs w) = Some cb -> cb_once cb <> None -> cb_taken cb = false)
-  | IBody t _ _ cl => TW cl all w
+  | IBody t _ _ cl => TF t cl all w
   | IExclSteps _ _ _ (CCleanup cl :: r) _ => TW cl all w /\ nocl r
   | IExclSteps _ _ _ pending _ => TI all w /\ nocl pending
   | IReplay t pending kept => TI (buffer w ++ pending ++ kept ++ H) w
@@ -544,8 +837,7 @@ Proof.
       destruct HT2 as (T & F & O & C & U). cbn [buffer set].
       change (buffer (w2 <| buffer ::= fun b0 => b0 ++ [mkBuf t su cl] |>)) with (buffer w2 ++ [b]).
       split; [|split; [exact F|split; [exact O|split; [exact C|apply (c_buffer _ _ UC); exact U]]]].
-      destruct T; constructor; cbn; try assumption;
-        try (rewrite <- app_assoc; cbn [app]; assumption).
+      refine (TInv_eq _ _ _ _ _ _ T); [cbn [buffer set emit]; rewrite <- app_assoc; reflexivity|reflexivity].
     + apply (Hlast (IRun t su cl (counter w)) H w2 (IRunner t su cl)); [|exact I|exact I]. unfold TPre. split; [exact HT2'|exact Hls].
 Qed.
 
@@ -557,7 +849,7 @@ Proof.
     (* take the callback *)
     assert (HTtake : TI (b :: buffer w ++ H) (rn_take t su w)).
     { unfold rn_take. apply TX_emit; [exact fl_ok_off|].
-      split; [destruct T; constructor; assumption|]. split; [exact F|]. split; [|split].
+      split; [tsame T|]. split; [exact F|]. split; [|split].
       - apply (O_take t su w) in O. unfold rn_take in O. intros t0 cb0 Hcb. apply (O t0 cb0). exact Hcb.
       - apply (C_storage_upd t false w) in C. exact C.
       - apply (c_counter _ _ UC). apply (c_storage _ _ UC). exact U. }
@@ -570,7 +862,7 @@ Proof.
     assert (HB0 : buffer w0 = buffer w) by (rewrite B0; reflexivity).
     assert (Hpre_cb : TPre (ICallback t cl) H w0).
     { unfold TPre. split; [|split; [exact Hst0|]].
-      - rewrite HB0. split; [exact T0|]. split; [exact F0|]. split; [eapply O_oview; eauto|]. split; [eapply C_oview; eauto|].
+      - rewrite HB0. split; [exact T0|]. split; [split; [exact F0|eapply setup_fresh; [exact F1|exact ES]]|]. split; [eapply O_oview; eauto|]. split; [eapply C_oview; eauto|].
         eapply (c_setup _ _ UC); eauto.
       - intros cb Hcb Honce. rewrite Hcb0 in Hcb. destruct (cb_taken cb) eqn:Etk; [|reflexivity]. exfalso. eapply (O t cb); eauto. }
     apply (Hsub (ICallback t cl) H w0 _ (IRun t su cl idx) H Hpre_cb). intros w1 E1 [HT1 HKG1].
@@ -586,13 +878,13 @@ Proof.
     { intros w3 HT3. apply (Hsub IPoll H w3 _ (IRun t su cl idx) H HT3). intros w4 E4 [HT4 _].
       assert (Hpre5 : TPre (IReplay t (buffer w4) []) H (w4 <| buffer := [] |>)).
       { unfold TPre. cbn [buffer set app].
-        destruct HT4 as (T4 & F4 & O4 & C4 & U4). split; [destruct T4; constructor; assumption|]. split; [exact F4|]. split; [exact O4|]. split; [exact C4|].
+        destruct HT4 as (T4 & F4 & O4 & C4 & U4). split; [tsame T4|]. split; [exact F4|]. split; [exact O4|]. split; [exact C4|].
         apply (c_buffer _ _ UC). exact U4. }
       apply (Hsub _ H _ _ (IRun t su cl idx) H Hpre5). intros w5 E5 [HT5 _].
       destruct (N.eqb idx 0).
       - pose proof (IH IDiscard H w5 HT5) as Hp6. destruct (exec P f IDiscard w5) as [w6| |n]; cbn [bind]; [|exact I|exact Hp6].
         destruct Hp6 as [HT6 _]. apply post_plain; [|exact I]. apply TX_emit; [exact fl_ok_off|].
-        destruct HT6 as (T6 & F6 & O6 & C6 & U6). split; [destruct T6; constructor; assumption|]. split; [exact F6|]. split; [exact O6|]. split; [exact C6|].
+        destruct HT6 as (T6 & F6 & O6 & C6 & U6). split; [tsame T6|]. split; [exact F6|]. split; [exact O6|]. split; [exact C6|].
         apply (c_counter _ _ UC). exact U6.
       - cbn [bind]. apply post_plain; [|exact I]. apply TX_emit; [exact fl_ok_off|exact HT5]. }
     pose proof (lookup_storage_cases t w2) as Hls.
@@ -615,14 +907,14 @@ Proof.
       cbn [bind]. apply Hrest. unfold rn_reinsert. apply TX_emit; [exact fl_ok_off|]. cbn [buffer set].
       assert (Hk : forall cb, alookup t (cbs w2) = Some cb -> cb_once cb = None).
       { destruct HKG2 as [[_ HK]|[_ HG]]; [exact HK|congruence]. }
-      split; [destruct T2; constructor; assumption|]. split; [exact F2|]. split; [|split].
+      split; [tsame T2|]. split; [exact F2|]. split; [|split].
       * apply (O_reinsert t k w2 O2) in Hk. unfold rn_reinsert in Hk. intros t0 cb0 Hcb. apply (Hk t0 cb0). exact Hcb.
       * apply (C_storage_upd t true w2) in C2. exact C2.
       * apply (c_storage _ _ UC). exact U2.
     + cbn [bind]. apply Hrest. unfold rn_reinsert. apply TX_emit; [exact fl_ok_off|]. cbn [buffer set].
       assert (Hk : forall cb, alookup t (cbs w2) = Some cb -> cb_once cb = None).
       { destruct HKG2 as [[_ HK]|[_ HG]]; [exact HK|congruence]. }
-      split; [destruct T2; constructor; assumption|]. split; [exact F2|]. split; [|split].
+      split; [tsame T2|]. split; [exact F2|]. split; [|split].
       * apply (O_reinsert t k w2 O2) in Hk. unfold rn_reinsert in Hk. intros t0 cb0 Hcb. apply (Hk t0 cb0). exact Hcb.
       * apply (C_storage_upd t true w2) in C2. exact C2.
       * apply (c_storage _ _ UC). exact U2.
@@ -635,9 +927,9 @@ Proof.
     assert (Hcbs : alookup t (cbs w) <> None) by (apply C; rewrite Hst; discriminate).
     destruct (alookup t (cbs w)) as [cb|] eqn:EC; [|contradiction].
     assert (Hsp : In t (spawned w)) by (apply (proj2 U); eapply alookup_Some_key; eauto).
-    assert (Hbump : forall bt, TW cl (buffer (cb_bump t cb bt w) ++ H) (cb_bump t cb bt w)).
+    assert (Hbump : forall bt, TF t cl (buffer (cb_bump t cb bt w) ++ H) (cb_bump t cb bt w)).
     { intros bt. change (buffer (cb_bump t cb bt w)) with (buffer w).
-      split; [destruct T; constructor; assumption|]. split; [destruct cl; exact F|]. split; [apply O_cb_bump; [exact O|rewrite Hst; discriminate]|].
+      split; [tsame T|]. split; [eapply fl_ok_fresh; [|exact F]; reflexivity|]. split; [apply O_cb_bump; [exact O|rewrite Hst; discriminate]|].
       split; [apply (C_cbs_upd t _ w C)|apply (c_cbbump _ _ UC); assumption]. }
     destruct (cb_once cb) as [tk|] eqn:Eonce.
     + rewrite (Hns cb eq_refl ltac:(rewrite Eonce; discriminate)).
@@ -666,10 +958,12 @@ Lemma case_IBody t runno captured cl H w : TPre (IBody t runno captured cl) H w 
 Proof.
   intros HP. pose proof (Ubase_closed P) as UC. cbn [exec].
     unfold TPre in HP. cbn zeta. set (sd := sys_or_default P t).
+    pose proof (proj2 (proj1 (proj2 HP))) as Hfresh. unfold fresh_claim in Hfresh. rewrite Hfresh. cbn [negb].
+    assert (HP' : TW cl (buffer w ++ H) w) by (destruct HP as (T & [F _] & R); exact (conj T (conj F R))).
     assert (Hb : TW cl (buffer (body_begin P sd t runno captured w) ++ H) (body_begin P sd t runno captured w)).
     { rewrite (proj2 (proj2 (proj2 (proj2 (proj2 (kview_proj _ _ (kview_body_begin P sd t runno captured w))))))).
-      eapply TX_inert; [apply fl_ok_within|apply kview_body_begin|apply oview_body_begin| |exact HP].
-      apply (c_body _ _ UC). exact (proj2 (proj2 (proj2 (proj2 HP)))). }
+      eapply TX_inert; [apply fl_ok_within|apply kview_body_begin|apply oview_body_begin| |exact HP'].
+      apply (c_body _ _ UC). exact (proj2 (proj2 (proj2 (proj2 HP')))). }
     destruct (sd_kind sd).
     + pose proof (TX_acts (flags_within cl) _ (OSys t runno) 0 (script_of P t runno) _ (fl_ok_within cl) Hb) as [HTa HBa].
       pose proof (acts_no_cleanup P (script_of P t runno) (OSys t runno) 0 (body_begin P sd t runno captured w)) as Hn.
@@ -732,7 +1026,7 @@ Proof.
     unfold TPre in HP. destruct pending as [|b pending].
     + apply post_plain; [|exact I]. cbn [app] in HP. destruct HP as (T & F & O & C & U). cbn [buffer set].
       change (buffer (w <| buffer ::= fun b0 => b0 ++ kept |>)) with (buffer w ++ kept). rewrite <- app_assoc.
-      split; [destruct T; constructor; assumption|]. split; [exact F|]. split; [exact O|]. split; [exact C|apply (c_buffer _ _ UC); exact U].
+      split; [tsame T|]. split; [exact F|]. split; [exact O|]. split; [exact C|apply (c_buffer _ _ UC); exact U].
     + destruct (N.eqb (b_sys b) t).
       * assert (Hpre1 : TPre (IRunner (b_sys b) (b_setup b) (b_cleanup b)) (pending ++ kept ++ H) w).
         { unfold TPre. rewrite buffered_eta. eapply TX_perm; [|exact HP]. apply Permutation_sym. cbn [app]. apply Permutation_middle. }
@@ -749,7 +1043,7 @@ Proof.
     unfold TPre in HP. destruct (buffer w) as [|b rest] eqn:EB; [apply post_plain; [rewrite EB; exact HP|exact I]|].
     assert (Hpre1 : TPre (IAbort (b_sys b) (b_setup b) (b_cleanup b)) H (rn_discard_pop b rest w)).
     { unfold TPre, rn_discard_pop. rewrite buffered_eta. apply TX_emit; [exact fl_ok_off|]. cbn [buffer set].
-      destruct HP as (T & F & O & C & U). split; [destruct T; constructor; assumption|]. split; [exact F|]. split; [exact O|]. split; [exact C|apply (c_buffer _ _ UC); exact U]. }
+      destruct HP as (T & F & O & C & U). split; [tsame T|]. split; [exact F|]. split; [exact O|]. split; [exact C|apply (c_buffer _ _ UC); exact U]. }
     apply (Hsub _ H _ _ IDiscard H Hpre1). intros w1 E1 [HT1 _].
     apply (Hlast IDiscard H w1 IDiscard); [exact HT1|exact I|exact I].
 Qed.
